@@ -245,8 +245,12 @@ def run(ctx):
                     continue
                 ev = (A or D)[0]
                 amt = ev.args[1]
-                if not mentions(amt, lambda s: is_call_to(s, "Vec::<T, A>::len") and mentions(s, lambda z: z == ("param", 2))):
-                    bad.append(("accounted amount is not the length of the buffer handed over", p))
+                amt0 = amt
+                while amt0[0] == "cast":
+                    amt0 = amt0[1]
+                # exactly the length (possibly cast): `counter_so_far + len` or `2 * len` also *mention* the length
+                if not (is_call_to(amt0, "Vec::<T, A>::len") and mentions(amt0, lambda z: z == ("param", 2))):
+                    bad.append(("accounted amount is not (exactly) the length of the buffer handed over: %s" % fmt(amt)[:80], p))
                 sent_ok = bool(sends) and p.variant_of(sends[0].res) == ("Ok",)
                 if A and not sent_ok:
                     bad.append(("counted as added although no send succeeded", p))
